@@ -27,6 +27,10 @@ def known_skip(feats, syn):
 
 
 KNOWN_CLASSES = {
+    # UPER strips trailing 0 bits of every BIT STRING, also of those without a NamedBitList
+    "bitstring.trailing-zero-bits.uper": lambda feats, syn: syn == "uper" and "bits.trailing0" in feats,
+    # SET has no OER/UPER codec at all
+    "set.no-oer-uper": lambda feats, syn: syn in ("oer", "uper") and "SET" in feats,
 }
 
 
@@ -102,8 +106,9 @@ def worker(mod_json, wseed, nvalues, cfg_kw):
             def body(x, tname=tname, t=t, feats=feats, plain=plain, ttext=ttext):
                 v, chain = x
                 chain2 = []
+                vfeats = feats | pipeline.value_features(mod, t, v)
                 for s in chain:
-                    k = known_skip(feats, s)
+                    k = known_skip(vfeats, s)
                     if k:
                         acc.excluded["known:" + k] += 1
                     else:
@@ -143,6 +148,10 @@ def worker(mod_json, wseed, nvalues, cfg_kw):
                 if f.key == "flaky":
                     acc.notes.append(f.summary[:500])
                 else:
+                    try:
+                        f = minimise(f, 40 if nvalues > 60 else 14)
+                    except Exception as e:
+                        acc.notes.append("minimise failed: %r" % (e,))
                     acc.violation(f.key, f.summary, f.replay)
                 if len(acc.violations) >= 4:
                     break
@@ -153,6 +162,44 @@ def worker(mod_json, wseed, nvalues, cfg_kw):
     finally:
         mb.cleanup()
     return acc
+
+
+def eval_case(mod, tname, v, chain):
+    """Fresh build + process; returns the failure class of the case or None."""
+    refder = ref_ber.encode(mod, mod.lookup(tname), v)
+    with drv.ModuleBuild(mod.render()) as mb:
+        d = mb.driver()
+        try:
+            reply = d.cmd("rt %s %s %s" % (tname, drv.hexs(refder), ",".join(chain)))
+        except drv.DriverCrash:
+            return "crash"
+        finally:
+            d.kill()
+    probs = check_rt(reply, chain, refder, None)
+    return probs[0][0] if probs else None
+
+
+def minimise(f, budget):
+    """Type-level reduction of a Hypothesis-shrunk failure; returns a new Fail."""
+    from . import reduce
+    case = f.replay
+    mod = Module.from_json(case["module"])
+    v = val_from_json(case["value"])
+    chain = case["chain"]
+    cls = eval_case(mod, case["type"], v, chain)
+    if cls is None:
+        return f
+    m2, n2, v2, log = reduce.reduce_case(mod, case["type"], v,
+                                         lambda m, n, x: eval_case(m, n, x, chain) == cls, budget)
+    if not log:
+        return f
+    refder = ref_ber.encode(m2, m2.lookup(n2), v2)
+    replay = {"module": m2.to_json(), "type": n2, "value": val_to_json(v2), "chain": chain, "refder": refder.hex()}
+    violated, text = replay_case(replay)
+    if not violated:
+        return f
+    return Fail(f.key, "%s ::= %s\nvalue %s chain %s\n%s\n[reduced from a larger type by: %s]" % (
+        n2, m2.lookup(n2).render(), val_repr(v2), ",".join(chain), text, " ".join(log)), replay)
 
 
 def replay_case(case):
